@@ -236,6 +236,8 @@ class Rat(object):
         return Rat(Poly.atom(a))
 
     def __add__(self, o):
+        if hasattr(o, "__array_priority__"):
+            return NotImplemented
         o = _R(o)
         if self.d == o.d:
             return Rat(self.n + o.n, self.d)
@@ -244,6 +246,8 @@ class Rat(object):
     __radd__ = __add__
 
     def __sub__(self, o):
+        if hasattr(o, "__array_priority__"):
+            return NotImplemented
         o = _R(o)
         if self.d == o.d:
             return Rat(self.n - o.n, self.d)
@@ -256,12 +260,16 @@ class Rat(object):
         return Rat(-self.n, self.d)
 
     def __mul__(self, o):
+        if hasattr(o, "__array_priority__"):
+            return NotImplemented
         o = _R(o)
         return Rat(self.n * o.n, self.d * o.d)
 
     __rmul__ = __mul__
 
     def __truediv__(self, o):
+        if hasattr(o, "__array_priority__"):
+            return NotImplemented
         o = _R(o)
         if o.n.is_zero():
             raise ZeroDivisionError("division by the zero polynomial")
